@@ -88,6 +88,10 @@ REGRESSIONS = (
      "one shared (cached) LOCALNAMESPACEPATH element per namespace: of "
      "several paths of one document in the same namespace only the one "
      "built last keeps it"),
+    ("WireOpsImplLegacyRefArray.cfg",
+     "_methodcall paramvalue() takes a list for an array of references only "
+     "if its FIRST item is an instance name (class name first: VALUE.ARRAY "
+     "around VALUE.REFERENCE)"),
 )
 
 
@@ -712,7 +716,9 @@ def header_class(headers):
             out |= set(W.char_classes(v))
             if re.search(r"%[0-9A-Fa-f]{2}", v):
                 out.add("pct")
-            if v != v.strip(" \t"):     # white space a receiver strips
+            # white space a receiver strips, or its escaped form, at an
+            # edge of the value (WireOps!EdgeBlankForms)
+            if v != v.strip(" \t") or re.search(r"^%20|%20$", v):
                 out.add("edgeblank")
     out.discard("ascii")
     return "+".join(sorted(out)) or "ascii"
@@ -994,7 +1000,8 @@ class Gen:
             v = r.choice([None, self.instname(), self.classname()])
             return CIMParameter(n, "reference", value=v)
         if kind == 1:
-            v = [self.instname(), None] if r.random() < 0.5 else []
+            v = r.choice([[self.instname(), None], [],
+                          [self.classname(), self.instname()]])
             return CIMParameter(n, "reference", value=v, is_array=True)
         if kind == 2:
             v = r.choice([self.instance(1), self.klass(1)])
@@ -1079,7 +1086,10 @@ class Gen:
         if k == 0:
             return r.choice([self.instname(), self.classname()])
         if k == 1:
-            return [self.instname(), self.instname()]
+            # array of references, every item an instance or a class name
+            # (WireOpsImplOps!RefArrayKinds: either kind may come first)
+            return [self.classname() if r.random() < 0.4 else self.instname()
+                    for _ in range(1 + r.randrange(3))]
         if k == 2:
             return r.choice([self.instance(1), self.klass(1)])
         if k == 3:
@@ -1184,16 +1194,33 @@ HDR_CLASSES = {
 }
 
 
-def target_names(rng, hclass):
+# WireOps!EdgeBlankForms: where the blanks of a name of class "edgeblank"
+# stand (core = text without blanks at its edges, n = 1..3 blanks)
+EDGE_FORMS = {
+    "trail": lambda core, n, m: core + " " * n,
+    "lead": lambda core, n, m: " " * n + core,
+    "both": lambda core, n, m: " " * n + core + " " * m,
+    "only": lambda core, n, m: " " * n,
+}
+
+
+def target_names(rng, hclass, eform=None, where=None):
     """Names for the target of a call whose characters come from one class
     (never ':', '.', '/', '=', ',', '"', '\\': the CIMObject value would be
-    ambiguous)."""
+    ambiguous).  eform / where: edge-blank form (WireOps!EdgeBlankForms) and
+    the name that gets it (directed calls); the directed calls keep the
+    namespace to ONE component for "ns", so that the name's form is the form
+    of the header VALUE of an intrinsic operation."""
     al = HDR_CLASSES[hclass]
+    directed = eform is not None
 
     def nm():
         return "".join(rng.choice(al) for _ in range(1 + rng.randrange(4))) \
             or "a"
-    where = rng.choice(["ns", "cls", "key", "meth", "all"])
+    if where is None:
+        where = rng.choice(["ns", "cls", "key", "meth", "all"])
+    if hclass == "edgeblank" and eform is None:
+        eform = rng.choice(sorted(EDGE_FORMS))
 
     def pick(w):
         if where in (w, "all"):
@@ -1203,12 +1230,14 @@ def target_names(rng, hclass):
                     c in s for c in al[1:]):
                 s += rng.choice(al[1:])
             if hclass == "edgeblank":
-                s = (s.strip() or "a") + " "
+                s = EDGE_FORMS[eform](s.strip() or "a", 1 + rng.randrange(3),
+                                      1 + rng.randrange(3))
             return s
         return "".join(rng.choice(HDR_CLASSES["ascii"])
                        for _ in range(1 + rng.randrange(4)))
-    nscomps = [pick("ns") for _ in range(1 + rng.randrange(2))]
-    k = rng.random()
+    nscomps = [pick("ns") for _ in range(
+        1 if directed and where == "ns" else 1 + rng.randrange(2))]
+    k = 1.0 if directed else rng.random()
     if k < 0.08:                    # value class "empty" (NsClasses)
         nscomps = [rng.choice(["", "", "/"])]
     elif k < 0.16:                  # value class "gap"
@@ -1219,7 +1248,7 @@ def target_names(rng, hclass):
             "cls": pick("cls"),
             "keys": list({pick("key").lower(): 0
                           for _ in range(1 + rng.randrange(2))}),
-            "meth": pick("meth"), "where": where}
+            "meth": pick("meth"), "where": where, "eform": eform}
 
 
 # ---------------------------------------------------------------------------
@@ -1570,8 +1599,13 @@ def vocabulary(out):
         raise vlib.MachineryError(
             "target name classes of the drivers %r differ from "
             "WireOps!HdrNameClasses %r" % (sorted(HDR_CLASSES), hdrcl))
+    edge = parse_json_prints(out, "EDGEFORMS")
+    if len(edge) != 1 or set(edge[0]) != set(EDGE_FORMS):
+        raise vlib.MachineryError(
+            "edge-blank forms of the drivers %r differ from "
+            "WireOps!EdgeBlankForms %r" % (sorted(EDGE_FORMS), edge))
     return {"optable": optable[0], "refspec": refspec[0],
-            "mrefarrays": mrefarrays[0]}
+            "mrefarrays": mrefarrays[0], "edgeforms": sorted(edge[0])}
 
 
 def enumerate_cases(ctx):
@@ -1702,7 +1736,8 @@ def build_doc(table, voc, seed, recipe):
                 s, repr(o)
         if d == "call":
             g = Gen(rng, clean_ns=True)
-            tn = target_names(rng, recipe["hclass"])
+            tn = target_names(rng, recipe["hclass"], recipe.get("eform"),
+                              recipe.get("where"))
             g.pool.append(tn["ns"])     # references into the target namespace
             op = recipe["op"]
             try:
@@ -1762,7 +1797,7 @@ def build_doc(table, voc, seed, recipe):
     raise vlib.MachineryError("unknown driver %r" % d)
 
 
-def plan(ctx, cases, objcases, optable, coin):
+def plan(ctx, cases, objcases, optable, coin, edgeforms):
     """The list of recipes of this run.  Cases whose document holds two
     paths in the same namespace (coincidence class "same", computed by TLC)
     are concretised with identical spelling of equal namespace ids; the
@@ -1803,6 +1838,19 @@ def plan(ctx, cases, objcases, optable, coin):
                             "hclass": hclass,
                             "cdata": rng.random() < 0.1})
             i += 1
+    # directed: every edge-blank form (WireOps!EdgeBlankForms) as the form of
+    # the header VALUE of every operation: CIMObject of an intrinsic
+    # operation = the namespace; InvokeMethod: CIMMethod = the method name,
+    # CIMObject begins with the namespace and ends with the class name
+    for op in ops:
+        for where in (("meth", "ns", "cls") if op == "InvokeMethod"
+                      else ("ns",)):
+            for ef in edgeforms:
+                for k in range(3 if thorough else 1):
+                    recipes.append({"driver": "call", "i": i, "op": op,
+                                    "hclass": "edgeblank", "eform": ef,
+                                    "where": where, "cdata": False})
+                    i += 1
     i = 0
     for cls, chars in sorted(BAD.items()):
         for bad in (chars if thorough else chars[:2]):
@@ -1854,7 +1902,8 @@ def run(ctx):
     check_signatures(ctx, optable)
     t_mc = time.time() - t0
 
-    recipes = plan(ctx, cases, objcases, optable, voc.pop("coin"))
+    recipes = plan(ctx, cases, objcases, optable, voc.pop("coin"),
+                   voc["edgeforms"])
     events, raws, descs = [], [], []
     t1 = time.time()
     for rc in recipes:
